@@ -160,8 +160,22 @@ class MetadataManager:
             self.lock_provider.acquire()
 
             try:
-                # PHASE 1: Validation (inside lock to prevent races)
-                current = self.refresh()
+                # PHASE 1: Validation (inside lock to prevent races).
+                # On CAS backends the version validated against and the ETag the
+                # commit point is keyed to MUST come from one and the same read of
+                # the hint. With two reads, a commit landing between them is
+                # invisible to validation yet its ETag is the one our conditional
+                # PUT matches: we would replace a version we never looked at. The
+                # lock alone does not rule that out (a lease can lapse).
+                hint_etag: Optional[str] = None
+                filesystem_version: Optional[int] = None
+                previous_metadata_file: Optional[str] = None
+                if self.storage.supports_cas:
+                    current, hint_etag, filesystem_version, previous_metadata_file = (
+                        self._read_current_with_etag()
+                    )
+                else:
+                    current = self.refresh()
 
                 # Check UUID consistency
                 if current and current.table_uuid != base_metadata.table_uuid:
@@ -195,19 +209,8 @@ class MetadataManager:
                     now_ms = max(now_ms, current.last_updated_ms + 1)
                 new_metadata.last_updated_ms = now_ms
 
-                # Read current version (and, on CAS backends, the hint's ETag so
-                # the commit point below can be a true compare-and-swap).
-                hint_etag: Optional[str] = None
-                filesystem_version: Optional[int] = None
-                previous_metadata_file: Optional[str] = None
-                if self.storage.supports_cas:
-                    try:
-                        hint_bytes, hint_etag = self.storage.read_file_with_etag(self.HINT_PATH)
-                        parsed = self._parse_hint_content(hint_bytes)
-                        if parsed is not None:
-                            filesystem_version, previous_metadata_file = parsed
-                    except FileNotFoundError:
-                        hint_etag = None
+                # Resolve the version being superseded (already known on CAS
+                # backends from the ETag'd read above).
                 if filesystem_version is None:
                     info = self._current_version_info()
                     if info is not None:
@@ -342,6 +345,32 @@ class MetadataManager:
             raise AmbiguousCommitError(
                 f"Version hint write failed ambiguously: {e}"
             ) from e
+
+    def _read_current_with_etag(
+        self,
+    ) -> Tuple[Optional[TableMetadata], Optional[str], Optional[int], Optional[str]]:
+        """One read of the version hint yielding BOTH the current metadata to
+        validate against and the ETag for the conditional commit-point write.
+
+        Returns (current metadata or None, hint ETag or None, version, filename).
+        A missing / unparseable / dangling hint falls back to the recovery scan
+        for the version; the ETag (None = create-if-absent) still pins the hint
+        object exactly as it was read.
+        """
+        hint_etag: Optional[str] = None
+        parsed: Optional[Tuple[int, str]] = None
+        try:
+            hint_bytes, hint_etag = self.storage.read_file_with_etag(self.HINT_PATH)
+            parsed = self._parse_hint_content(hint_bytes)
+        except FileNotFoundError:
+            hint_etag = None
+        if parsed is None or not self.storage.exists(f"{self.metadata_path}/{parsed[1]}"):
+            parsed = self._recover_version_from_files()
+        if parsed is None:
+            return None, hint_etag, None, None
+        version, filename = parsed
+        current = self._read_metadata_file(f"{self.metadata_path}/{filename}")
+        return current, hint_etag, version, filename
 
     def _discard_uncommitted_metadata(self, metadata_path: str) -> None:
         """Best-effort removal of a metadata file whose commit cleanly failed."""
